@@ -14,8 +14,10 @@ From Coq Require Import List NArith Bool.
 From Coq Require String.
 Import String.StringSyntax.
 From Sccache Require Import Base.Sx.
+From Sccache Require Import Model.Client.
 From Sccache Require Import Model.Startup.
 From Sccache Require Import Model.ServerLife.
+From Sccache Require Import Model.ServerExit.
 Import ListNotations.
 Local Open Scope N_scope.
 Local Open Scope string_scope.
@@ -71,18 +73,23 @@ Fixpoint accept (s : st) (es : list (ev * N)) (idx : N) : (option (N * N)) * st 
       else (Some (idx, m), s)
   end.
 
+Definition run_race5 (kd r k stale : sx) (es : list sx) : sx :=
+  match dec_kind kd, dec_evs es with
+  | Some a, Some evs =>
+      let s0 := init a (N.to_nat (get_N r)) (get_N k) (get_bool stale) in
+      match accept s0 evs 0 with
+      | (None, s) => SL (sym "accepted" :: snat (length evs) :: enc_end (get_N k) s)
+      | (Some (i, m), s) => SL (sym "rejected" :: SN i :: SN m :: enc_end (get_N k) s)
+      end
+  | _, _ => err "bad case"
+  end.
+
+(* an optional 6th element names the SPELLING of the socket path the run used (plain | symlink | dotdot | dslash):
+   the start-up model does not depend on it (C20_started_server_report_proceeds), the replay does *)
 Definition run_race (x : sx) : sx :=
   match x with
-  | SL [kd; r; k; stale; SL es] =>
-      match dec_kind kd, dec_evs es with
-      | Some a, Some evs =>
-          let s0 := init a (N.to_nat (get_N r)) (get_N k) (get_bool stale) in
-          match accept s0 evs 0 with
-          | (None, s) => SL (sym "accepted" :: snat (length evs) :: enc_end (get_N k) s)
-          | (Some (i, m), s) => SL (sym "rejected" :: SN i :: SN m :: enc_end (get_N k) s)
-          end
-      | _, _ => err "bad case"
-      end
+  | SL [kd; r; k; stale; SL es] => run_race5 kd r k stale es
+  | SL [kd; r; k; stale; SL es; _] => run_race5 kd r k stale es
   | _ => err "bad case"
   end.
 
@@ -149,12 +156,78 @@ Definition enc_life (s : lst) : sx :=
           SL (map (fun c => SL [SN (fst c); sbool (snd c)]) cut); SN (lnow s)]
   end.
 
+(* life events plus arrivals: (connect c) is a client connecting; its outcome (accepted iff the listener exists)
+   is collected in an extra last element of the result:  ( ... now ( (c 1|0) ... ) ) *)
+Inductive lev2 := Ev (e : levent) | Conn (c : N).
+
+Definition dec_lev2 (x : sx) : option lev2 :=
+  match x with
+  | SL [t; a] => if is_sym "connect" t then Some (Conn (get_N a))
+                 else match dec_lev x with Some e => Some (Ev e) | None => None end
+  | _ => match dec_lev x with Some e => Some (Ev e) | None => None end
+  end.
+
+Fixpoint dec_lev2s (l : list sx) : option (list lev2) :=
+  match l with
+  | [] => Some []
+  | x :: r => match dec_lev2 x, dec_lev2s r with
+              | Some e, Some es => Some (e :: es)
+              | _, _ => None
+              end
+  end.
+
+Fixpoint run_lev2 (s : lst) (es : list lev2) (acc : list sx) : lst * list sx :=
+  match es with
+  | [] => (s, rev acc)
+  | Ev e :: r => run_lev2 (lstep s e) r acc
+  | Conn c :: r => let '(s', ok) := lconnect s c in run_lev2 s' r (SL [SN c; sbool ok] :: acc)
+  end.
+
 Definition run_life (x : sx) : sx :=
   match x with
   | SL [t; cap; SL es] =>
-      match dec_levs es with
-      | Some evs => enc_life (lexec (linit (get_N t) (get_N cap)) evs)
+      match dec_lev2s es with
+      | Some evs =>
+          let '(s, arr) := run_lev2 (linit (get_N t) (get_N cap)) evs [] in
+          match enc_life s with
+          | SL l => SL (l ++ [SL arr])
+          | y => y
+          end
       | None => err "bad event"
+      end
+  | _ => err "bad case"
+  end.
+
+(* leg "cut": case = ( k retcode stderr_len ) — a client that has the CompileStarted frame and the first k bytes of
+   the CompileFinished frame (retcode, no signal, empty stdout, stderr_len bytes 'w', colour Auto), then EOF.
+   result = ( local | finished rc | error ) frame_len *)
+Definition run_cut (x : sx) : sx :=
+  match x with
+  | SL [k; rc; n] =>
+      let f := {| f_retcode := Some (get_N rc); f_signal := None; f_stdout := [];
+                  f_stderr := repeat 119 (N.to_nat (get_N n)); f_color := 2 |} in
+      let o := cut_client (fun _ _ => true) false f (N.to_nat (get_N k)) in
+      SL [ match o with
+           | RunLocally _ => SL [sym "local"]
+           | ReturnFinished g => SL [sym "finished"; SN (finished_exit g)]
+           | SccacheError _ => SL [sym "error"]
+           end;
+           snat (length (frame (encode_finished f))) ]
+  | _ => err "bad case"
+  end.
+
+(* leg "report": case = ( tcp port ) | ( path bytes ) | ( abstract bytes ) — the client that spawned the server for
+   this address, after the server has bound.  result = proceeds | bails *)
+Definition run_report (x : sx) : sx :=
+  match x with
+  | SL [k; a] =>
+      let ad := if is_sym "tcp" k then Some (TcpPort (get_N a))
+                else if is_sym "path" k then Some (Client.UdsPath (get_B a))
+                else if is_sym "abstract" k then Some (UdsAbstract (get_B a))
+                else None in
+      match ad with
+      | Some ad => if spawner_proceeds ad then sym "proceeds" else sym "bails"
+      | None => err "bad address"
       end
   | _ => err "bad case"
   end.
@@ -163,4 +236,6 @@ Definition dispatch (leg : list N) (x : sx) : sx :=
   if bytes_eqb leg (bs "race") then run_race x
   else if bytes_eqb leg (bs "sched") then run_sched x
   else if bytes_eqb leg (bs "life") then run_life x
+  else if bytes_eqb leg (bs "cut") then run_cut x
+  else if bytes_eqb leg (bs "report") then run_report x
   else err "unknown leg".
